@@ -1436,8 +1436,45 @@ func r10_6(c *Ctx, lf *lexFacts) {
 					c.info(key+" unreachable", call.Pos(), "not reached by the analysis")
 					return
 				}
+				if st.cur.has('\n') && st.flagU.has('\n') && cx.deferred[call] {
+					c.ok(key, call.Pos(), "current byte %s; a line break advanced over here is reported to the caller through a bool that is true whenever it happened (settled where the skipper returns)", st.cur)
+					return
+				}
 				c.check(!(st.cur.has('\n') && st.flagU.has('\n')), key, call.Pos(), fmt.Sprintf("current byte %s; flag set whenever it is a line break", st.cur), "the skipper advances over a byte that may be '\\n' without having set the after-newline flag on that path: the next token is not marked as following a line break (ASI then fuses two statements)")
 			})
+		}
+	}
+	// line breaks reported through a bool (a helper returning "saw a newline") are settled before the skipper returns,
+	// and a computed value is not stored into the flag once it may have been set
+	for _, cx := range lf.contextsOf(lf.skipper) {
+		nr := 0
+		var rets []*ssa.Return
+		for r := range cx.retVals {
+			rets = append(rets, r)
+		}
+		sort.Slice(rets, func(i, j int) bool { return rets[i].Pos() < rets[j].Pos() })
+		for _, r := range rets {
+			st := cx.retVals[r]
+			if !st.wdebt && !st.debt {
+				continue
+			}
+			nr++
+			c.bad(fmt.Sprintf("skipper: return #%d", nr), r.Pos(), "the skipper can return after a helper advanced over a line break without the after-newline flag having been set from the helper's report: the next token is not marked as following a line break")
+		}
+	}
+	for _, skf := range lf.skipperFns() {
+		for _, cx := range lf.contextsOf(skf) {
+			n := 0
+			var sts []*ssa.Store
+			for st := range cx.flagOver {
+				sts = append(sts, st)
+			}
+			sort.Slice(sts, func(i, j int) bool { return sts[i].Pos() < sts[j].Pos() })
+			for _, st := range sts {
+				n++
+				key := fmt.Sprintf("%s: computed value stored into the after-newline flag #%d", skf.Name(), n)
+				c.check(!cx.flagOver[st], key, st.Pos(), "the flag cannot have been set before on this path", "a computed value is assigned to the after-newline flag although the flag may already have been set in this gap: an earlier line break is forgotten when the value is false (assign only true, or OR the value in)")
+			}
 		}
 	}
 	// every token.Token literal in the lexer copies the flag and a fresh copy of the trivia buffer
@@ -1536,6 +1573,11 @@ func r10_7(c *Ctx, lf *lexFacts, la *lexAnchors, t *tables) {
 						if instrDominates(o, call) {
 							inComment = true
 						}
+					}
+					// a helper that is only ever entered on the first slash of `//`: everything it advances over up to
+					// the line end is the comment (the opener included)
+					if skf != lf.skipper && cx.entry != nil && cx.entry.cur == slash && cx.entry.peek == slash {
+						inComment = true
 					}
 					if inComment && !st.cur.has(0) || inComment && st.cur.sub(setOf('\n')) {
 						c.ok(key, call.Pos(), "comment body/terminator %s", st.cur)
@@ -1908,7 +1950,24 @@ func feasibleCycle(lf *lexFacts, cx *lexCtx, cyc []*ssa.BasicBlock, cur, peek bs
 		if b.Succs[0] == next && b.Succs[1] == next {
 			continue
 		}
-		if !lf.refine(s, cx, iff.Cond, pol) {
+		cond := iff.Cond
+		// a short-circuit condition joined in this block: on this cycle its value is the one coming in from the cycle's
+		// previous block
+		if phi, ok := cond.(*ssa.Phi); ok && phi.Block() == b {
+			prev := cyc[(i-1+len(cyc))%len(cyc)]
+			for ei, p := range b.Preds {
+				if p == prev {
+					cond = phi.Edges[ei]
+				}
+			}
+			if k, ok := cond.(*ssa.Const); ok && k.Value != nil && k.Value.Kind() == constant.Bool {
+				if constant.BoolVal(k.Value) != pol {
+					return false
+				}
+				continue
+			}
+		}
+		if !lf.refine(s, cx, cond, pol) {
 			return false
 		}
 	}
